@@ -39,6 +39,10 @@ class P:
         for s in strs:
             items.append(("lit", s)); items.append(("bin", "+", ("lit", s), ("lit", s))); items.append(("map", [(("lit", s), ("lit", s))]))
         cases = flow.mk_cases("shapes", [("RT:" + hx(progs.render_full(t)), None) for t in items])
+        # the same trees with every argument, element, map key and map value that is not an atom in parentheses as well: a parser
+        # that only accepts some construct in parentheses there (a conditional as a map key, say) still yields the tree, and
+        # the printer must write a text that reads back
+        cases += flow.mk_cases("shapes-elems", [("RT:" + hx(progs.render_full(t, None, True)), None) for t in items])
         chains = ["a;b", "a=1;b=a+1;b", "1;2;3;", "[1,2,];{1:2,}", "f();g(1)", "",
                   # sub-trees equal as numbers, different as text: each literal is written as it was read
                   "\"it's \\\"ok\\\"\"", "x == \"don't say \\\"no\\\"\"", "'it\\'s \"q\"'", "['a\\', 'b']", "\"a\\\" + \"b\"",
